@@ -379,8 +379,7 @@ var probeNames = []string{"a", "b", "c"}
 
 // accessors compares the read accessors of a real body with the model,
 // recursively. The FirstMatchingBlock probes are made only when probes is set
-// (the final state of a history; FirstMatchingBlock is a pure function of
-// Blocks(), Type() and Labels(), which are compared at every step). It also (re)binds the handles of the model's block items when
+// (final state of a history, or every step when a failure is being attributed). It also (re)binds the handles of the model's block items when
 // bind is set (initial state only).
 func accessors(rb *hclwrite.Body, mb *refwriter.Body, where string, bind, probes bool) *failure {
 	// Attributes(): key set
@@ -539,20 +538,35 @@ func initialModel(i int) *refwriter.File {
 // results and accessor agreement (which keeps the replay honest: a history is
 // never continued from a state whose accessors disagree with the model), and
 // additionally in full wherever the operation runs into a recorded layout
-// hazard, so that such a failure is attributed to the step that causes it.
+// hazard. Whenever a history fails it is replayed once more with the complete
+// oracle after every step, so that the failure is attributed to the first
+// step whose state is wrong (the verdict and class are then exactly those of
+// an every-step oracle).
 func judge(c engine.Case) engine.Outcome {
 	d := c.Data.(Data)
+	o := replay(d, false)
+	if o.V == engine.Viol && len(d.Ops) > 1 {
+		if o2 := replay(d, true); o2.V == engine.Viol {
+			return o2
+		}
+	}
+	return o
+}
+
+func replay(d Data, everyStep bool) engine.Outcome {
 	if d.Init < 0 || d.Init >= len(initialFiles) {
 		return engine.Pass("")
 	}
-	traces.Add(1)
+	if !everyStep {
+		traces.Add(1)
+	}
 	init := initialFiles[d.Init]
 	var f *hclwrite.File
 	if p := call(func() { f = init.build() }); p != "" {
 		return engine.Fail("c12.init.panic", "building initial file %s panics: %s", init.name, p)
 	}
 	m := initialModel(d.Init)
-	if fl := checkAccessors(f, m, true, len(d.Ops) == 0); fl != nil {
+	if fl := checkAccessors(f, m, true, len(d.Ops) == 0 || everyStep); fl != nil {
 		return engine.Fail("c12.init."+fl.clause, "initial file %s: %s", init.name, fl.msg)
 	}
 	var out []byte
@@ -579,7 +593,9 @@ func judge(c engine.Case) engine.Outcome {
 		}
 		var rr realResult
 		pan := call(func() { rr = execReal(f, p, op) })
-		transitions.Add(1)
+		if !everyStep {
+			transitions.Add(1)
+		}
 		if pan != "" {
 			fl := failf("panic-op", "operation panics: %s", pan)
 			return engine.Fail(class(op, p, fl), "initial file %s, history\n%s%s", init.name, hist(), fl.msg)
@@ -599,13 +615,13 @@ func judge(c engine.Case) engine.Outcome {
 		}
 		last := i == len(d.Ops)-1
 		var ofl *failure
-		if last || p.hazard != "" {
+		if last || everyStep || p.hazard != "" {
 			out, ofl = checkOutput(f, m)
 			if ofl != nil && (ofl.clause == "panic-bytes" || ofl.clause == "unparseable") {
 				return engine.Fail(class(op, p, ofl), "initial file %s, history\n%s%s", init.name, hist(), ofl.msg)
 			}
 		}
-		if fl := checkAccessors(f, m, false, last); fl != nil && (ofl == nil || fl.clause == "panic-accessor") {
+		if fl := checkAccessors(f, m, false, last || everyStep); fl != nil && (ofl == nil || fl.clause == "panic-accessor") {
 			if out != nil {
 				fl.msg += fmt.Sprintf("\n--- output\n%s", out)
 			}
@@ -614,10 +630,12 @@ func judge(c engine.Case) engine.Outcome {
 		if ofl != nil {
 			return engine.Fail(class(op, p, ofl), "initial file %s, history\n%s%s", init.name, hist(), ofl.msg)
 		}
-		if last {
+		if last || everyStep {
 			states.Add(m.Root.String(), out)
 		}
 	}
-	counters.Add(fmt.Sprintf("histories_len_%d", len(d.Ops)), 1)
+	if !everyStep {
+		counters.Add(fmt.Sprintf("histories_len_%d", len(d.Ops)), 1)
+	}
 	return engine.Pass(m.Root.String() + "\x00" + string(out))
 }
